@@ -73,23 +73,37 @@ void harness(void) {
   size_t real = (size / OS_PAGE) * (size_t)page + (size % OS_PAGE);
   char path[64]; snprintf(path, sizeof path, "/tmp/vf-c19-%d.asm", (int)getpid());
   char *content = malloc(real + 1);
-  for (size_t i = 0; i < real; i++) content[i] = "nop\n"[i % 4];
+  /* contents: 10-byte instructions (they straddle chunk boundaries, so a file
+   * entry point that assembles in another mode than the string one shows),
+   * then nops, then blank lines */
+  { static const char L[] = "mov rax,0x1122334455667788\n"; size_t i = 0, ll = sizeof L - 1;
+    while (real - i >= ll) { memcpy(content + i, L, ll); i += ll; }
+    while (real - i >= 4) { memcpy(content + i, "nop\n", 4); i += 4; }
+    while (i < real) content[i++] = '\n'; }
   content[real] = 0;
   if (exists) { FILE *f = fopen(path, "wb"); fwrite(content, 1, real, f); fclose(f); } else unlink(path);
-  static uint8_t big1[1 << 16], big2[1 << 16];
-  assemblyline_t a = asm_create_instance(big1, sizeof big1), b = asm_create_instance(big2, sizeof big2);
-  int c1 = -1, c2 = -1, r1, r2;
-  if (which == 0) { r1 = asm_assemble_file(a, path); r2 = asm_assemble_str(b, content); }
-  else { r1 = asm_assemble_file_counting_chunks(a, path, (int)chunk, &c1); r2 = asm_assemble_string_counting_chunks(b, content, (int)chunk, &c2); }
-  printf("SIZE model=%lu real=%zu exists=%lu rc_file=%d rc_str=%d off=%d/%d cnt=%d/%d\n", size, real, exists, r1, r2, asm_get_offset(a), asm_get_offset(b), c1, c2);
-  unlink(path);
-  if (!exists) CHECK(r1 == EXIT_FAILURE, "a missing or unreadable file yields EXIT_FAILURE");
-  else {
-    CHECK(r1 == r2, "same return value as the in-memory entry point");
-    CHECK(asm_get_offset(a) == asm_get_offset(b), "same offset");
-    CHECK(c1 == c2, "same count");
-    CHECK(!memcmp(big1, big2, sizeof big1), "same bytes");
+  static uint8_t big1[1 << 17], big2[1 << 17];
+  /* the instance's earlier settings are part of "behaves exactly as": the pair
+   * is compared from three earlier states (fresh, chunk fitting 16, chunk fitting 32) */
+  static const int pre[3] = { 0, 16, 32 };
+  for (int k = 0; k < 3; k++) {
+    memset(big1, 0, sizeof big1); memset(big2, 0, sizeof big2);
+    assemblyline_t a = asm_create_instance(big1, sizeof big1), b = asm_create_instance(big2, sizeof big2);
+    if (pre[k]) { asm_set_chunk_size(a, pre[k]); asm_set_chunk_size(b, pre[k]); }
+    int c1 = -1, c2 = -1, r1, r2;
+    if (which == 0) { r1 = asm_assemble_file(a, path); r2 = asm_assemble_str(b, content); }
+    else { r1 = asm_assemble_file_counting_chunks(a, path, (int)chunk, &c1); r2 = asm_assemble_string_counting_chunks(b, content, (int)chunk, &c2); }
+    printf("SIZE model=%lu real=%zu exists=%lu pre=%d rc_file=%d rc_str=%d off=%d/%d cnt=%d/%d\n", size, real, exists, pre[k], r1, r2, asm_get_offset(a), asm_get_offset(b), c1, c2);
+    if (!exists) CHECK(r1 == EXIT_FAILURE, "a missing or unreadable file yields EXIT_FAILURE");
+    else {
+      CHECK(r1 == r2, "same return value as the in-memory entry point");
+      CHECK(asm_get_offset(a) == asm_get_offset(b), "same offset");
+      CHECK(c1 == c2, "same count");
+      CHECK(!memcmp(big1, big2, sizeof big1), "same bytes");
+    }
+    asm_destroy_instance(a); asm_destroy_instance(b);
   }
+  unlink(path);
 #endif
   WITNESS();
 }
